@@ -57,7 +57,7 @@ def make_script(cfg, r, lay):
         else:
             bb["launch"] = None
         if bb.get("store"):
-            bb["store_intent"] = tomlw.rnd_table(r, 0)
+            bb["store_intent"] = tomlw.rnd_table(r, 0) if r.random() < 0.7 else {}      # an empty store must be written too
             bb["store"] = tomlw.tagged(bb["store_intent"])
         else:
             bb["store"] = None
@@ -144,6 +144,15 @@ def run_cfg(lay, cfg, idx, seed, sh):
             env[v] = phase.TARGET_DEFAULT[v]
     base_args = lay.build_args() if cfg["name"] == "build" else lay.detect_args()
     args = (base_args + ["extra1", "extra2"])[:cfg["argc"]]
+    if cfg.get("raw_path"):
+        # a path argument that is not valid UTF-8 (legal on Linux): the plan path for detect, the layers dir for build
+        if cfg["name"] == "detect":
+            rawp = os.path.join(lay.root.encode(), b"plan-\xff\xfe.toml")
+            args = [lay.platform, rawp]
+        else:
+            rawl = os.path.join(lay.root.encode(), b"layers-\xff")
+            os.rename(lay.layers, rawl)
+            args = [rawl, lay.platform, lay.plan]
     skip = lambda rel: rel in (b"marker", b"dump.json", b"script.json")
     pre = vp.snapshot(lay.root, skip)
     status, marker, stderr = lay.run(cfg["name"], args, env, script)
@@ -151,6 +160,23 @@ def run_cfg(lay, cfg, idx, seed, sh):
     sh.evaluations += 1
     exp = expectation(cfg)
     case = {"cfg": cfg, "idx": idx}
+    if cfg.get("raw_path"):
+        # either the runtime refuses the argument (never reaches the buildpack, non-zero exit) or it honours the exact byte path
+        reached = any(m in ("detect", "build") for m in marker)
+        key = b"plan-\xff\xfe.toml" if cfg["name"] == "detect" else b"layers-\xff/launch.toml"
+        if not reached:
+            if status == 0:
+                sh.violation("raw-path:exit0", "%s with a non-UTF-8 path argument: buildpack code not reached but exit 0" % cfg["name"], case)
+            else:
+                sh.nontrivial.add(("raw-path", cfg["name"], "refused"))
+            return
+        if status != 0 or key not in post:
+            others = sorted(k for k in post if k not in pre)
+            sh.violation("raw-path:misplaced", "%s was given a non-UTF-8 path argument, ran the buildpack (exit %d), but the output is not at the requested path; new files: %r"
+                         % (cfg["name"], status, others[:5]), case)
+            return
+        sh.nontrivial.add(("raw-path", cfg["name"], "honoured"))
+        return
     phase_lines = [m for m in marker if m in ("detect", "build")]
     err_lines = [m for m in marker if m.startswith("on_error")]
     what = "%s with %d args, buildpack.toml=%s, env=%r, platform=%s, behaviour=%r" % (cfg["name"], cfg["argc"], cfg["toml"], [phase.TARGET_VARS[i][11:] for i in range(5) if cfg["envmask"][i]], cfg["platform"], cfg["beh"])
@@ -286,6 +312,10 @@ def run(tier, seed, work):
     fronts = all_fronts()
     for _ in range(1 if tier == "quick" else 4):
         cfgs += [with_beh(f, r) for f in fronts]
+    for name in ("detect", "build"):
+        for pre in (False, True):
+            cfgs.append({"name": name, "argc": 2 if name == "detect" else 3, "toml": "ok", "envmask": [True] * 5, "platform": "ok", "pre": pre, "raw_path": True,
+                         "beh": "plan" if name == "detect" else {"result": "ok", "launch": True, "store": False, "build_sboms": [], "launch_sboms": []}})
     items = list(enumerate(cfgs))
     for d in vp.pmap(shard_run, [(s, seed, work) for s in vp.split(items, vp.NCPU * 2)]):
         res.merge(d)
